@@ -1014,3 +1014,113 @@ Proof.
   rewrite (nth_indep _ 0 (fillna ext None)) by (rewrite map_length, repeat_length; exact Hj).
   rewrite (map_nth (fillna ext)). rewrite nth_repeat. reflexivity.
 Qed.
+
+(* ------------------------------------------------------------------ *)
+(* interpolate_dataset_grid on (x, y): composition of two axis steps    *)
+(* ------------------------------------------------------------------ *)
+
+Lemma nth_interp_axis : forall xp rows xs period nearest np a, (a < length xs)%nat ->
+  nth a (interp_axis xp rows xs period nearest np) []
+  = interp_axis1 xp rows (nth a xs 0) period nearest np.
+Proof.
+  intros xp rows xs period nearest np a Ha. unfold interp_axis.
+  rewrite (nth_indep _ [] (interp_axis1 xp rows 0 period nearest np)) by (rewrite map_length; exact Ha).
+  rewrite (map_nth (fun x => interp_axis1 xp rows x period nearest np)). reflexivity.
+Qed.
+
+Lemma nth_columns : forall mat ny k, (k < ny)%nat ->
+  nth k (columns mat ny) [] = map (fun r => nth k r None) mat.
+Proof. intros mat ny k Hk. unfold columns. rewrite nth_map_seq by exact Hk. reflexivity. Qed.
+
+Lemma all_some_map : forall (A : Type) (f : A -> option R) l,
+  (forall x, In x l -> exists v, f x = Some v) -> all_some (map f l) = true.
+Proof.
+  intros A f l H. unfold all_some. induction l as [|x l IH]; [reflexivity|].
+  cbn [map forallb]. destruct (H x (or_introl eq_refl)) as [v Hv]. rewrite Hv. cbn.
+  apply IH. intros y Hy. apply H. right. exact Hy.
+Qed.
+
+Lemma all_some_false_in : forall l, In None l -> all_some l = false.
+Proof.
+  unfold all_some. induction l as [|x l IH]; intros H; [destruct H|].
+  cbn [forallb]. destruct H as [->|H]; [reflexivity|]. rewrite (IH H). destruct (is_some x); reflexivity.
+Qed.
+
+Lemma enclosing_lt : forall xp x, (1 <= length xp)%nat ->
+  (fst (enclosing xp x None) < length xp)%nat /\ (snd (enclosing xp x None) < length xp)%nat.
+Proof.
+  intros xp x Hn. unfold enclosing. cbn [fst snd].
+  destruct (Nat.eqb _ 0); split; lia.
+Qed.
+
+Lemma interp_axis1_all_missing : forall xp rows x nearest np, (1 <= length xp)%nat ->
+  (forall i, (i < length xp)%nat -> all_some (nth i rows []) = false) ->
+  interp_axis1 xp rows x None nearest np = repeat None np.
+Proof.
+  intros xp rows x nearest np Hn H. unfold interp_axis1, axis_corners.
+  destruct (enclosing_lt xp x Hn) as [H0 H1].
+  apply two_corners_both_missing; apply H; assumption.
+Qed.
+
+(* all targets inside, finite data: the two steps give the bilinear value *)
+Lemma interp_grid2_bilinear : forall xp yp m xs ys a b i k,
+  asc xp -> asc yp -> (i + 1 < length xp)%nat -> (k + 1 < length yp)%nat ->
+  (a < length xs)%nat -> (b < length ys)%nat ->
+  rnth xp i <= nth a xs 0 < rnth xp (i + 1) -> rnth yp k <= nth b ys 0 < rnth yp (k + 1) ->
+  (forall a', (a' < length xs)%nat ->
+     exists i', (i' + 1 < length xp)%nat /\ rnth xp i' <= nth a' xs 0 < rnth xp (i' + 1)) ->
+  (forall i', (i' < length xp)%nat -> all_some (nth i' m []) = true) ->
+  let s := tfrac xp (nth a xs 0) i in
+  let t := tfrac yp (nth b ys 0) k in
+  let f i' k' := oget (nth i' m []) k' in
+  nth a (nth b (interp_grid2 xp yp m xs ys false) []) None
+  = Some ((1 - t) * ((1 - s) * f i k + s * f (i + 1)%nat k)
+          + t * ((1 - s) * f i (k + 1)%nat + s * f (i + 1)%nat (k + 1)%nat)).
+Proof.
+  intros xp yp m xs ys a b i k Hax Hay Hi Hk Ha Hb Hx Hy Hall Hv s t f.
+  unfold interp_grid2. set (ny := length yp). set (r := interp_axis xp m xs None false ny).
+  assert (Lr : length r = length xs) by (unfold r, interp_axis; apply map_length).
+  (* every entry of the first step is present *)
+  assert (Hr : forall a' j, (a' < length xs)%nat -> (j < ny)%nat ->
+            exists v, nth j (nth a' r []) None = Some v).
+  { intros a' j Ha' Hj. unfold r. rewrite nth_interp_axis by exact Ha'.
+    destruct (Hall a' Ha') as [i' [Hi' Hx']].
+    destruct (interp_between xp m (nth a' xs 0) i' ny j Hax Hi' Hx' (Hv i' ltac:(lia)) (Hv (i' + 1)%nat ltac:(lia)) Hj)
+      as [_ [E _]]. eexists. exact E. }
+  assert (Hcol : forall k', (k' < ny)%nat -> all_some (nth k' (columns r ny) []) = true).
+  { intros k' Hk'. rewrite nth_columns by exact Hk'. apply all_some_map.
+    intros row Hin. destruct (In_nth r row [] Hin) as [a' [Ha' <-]]. rewrite Lr in Ha'.
+    apply Hr; assumption. }
+  rewrite nth_interp_axis by exact Hb.
+  destruct (interp_between yp (columns r ny) (nth b ys 0) k (length xs) a Hay Hk Hy
+              (Hcol k ltac:(unfold ny; lia)) (Hcol (k + 1)%nat ltac:(unfold ny; lia)) Ha) as [_ [E _]].
+  rewrite E. fold (tfrac yp (nth b ys 0) k). fold t.
+  assert (Hval : forall k', (k' < ny)%nat ->
+            oget (nth k' (columns r ny) []) a = (1 - s) * f i k' + s * f (i + 1)%nat k').
+  { intros k' Hk'. rewrite nth_columns by exact Hk'. unfold oget.
+    rewrite (nth_indep _ None ((fun row => nth k' row None) [])) by (rewrite map_length, Lr; exact Ha).
+    rewrite (map_nth (fun row => nth k' row None)).
+    unfold r. rewrite nth_interp_axis by exact Ha.
+    destruct (interp_between xp m (nth a xs 0) i ny k' Hax Hi Hx (Hv i ltac:(lia)) (Hv (i + 1)%nat ltac:(lia)) Hk')
+      as [_ [E' _]]. rewrite E'. reflexivity. }
+  rewrite (Hval k) by (unfold ny; lia). rewrite (Hval (k + 1)%nat) by (unfold ny; lia). reflexivity.
+Qed.
+
+(* one target of the first coordinate outside its grid makes EVERY output missing: the second
+   step evaluates its NaN mask across all targets of the first one *)
+Lemma interp_grid2_outside_poisons : forall xp yp m xs ys nearest a0 a b,
+  asc xp -> (1 <= length xp)%nat -> (1 <= length yp)%nat ->
+  (a0 < length xs)%nat -> (nth a0 xs 0 < hd0 xp \/ last0 xp < nth a0 xs 0) ->
+  (a < length xs)%nat -> (b < length ys)%nat ->
+  nth a (nth b (interp_grid2 xp yp m xs ys nearest) []) None = None.
+Proof.
+  intros xp yp m xs ys nearest a0 a b Hax Hnx Hny Ha0 Hout Ha Hb.
+  unfold interp_grid2. set (ny := length yp). set (r := interp_axis xp m xs None nearest ny).
+  rewrite nth_interp_axis by exact Hb.
+  rewrite interp_axis1_all_missing; [apply nth_repeat|exact Hny|].
+  intros k Hk. rewrite nth_columns by exact Hk. apply all_some_false_in.
+  apply in_map_iff. exists (nth a0 r []). split.
+  - unfold r. rewrite nth_interp_axis by exact Ha0.
+    rewrite (interp_outside_none xp m (nth a0 xs 0) nearest ny Hax Hnx Hout). apply nth_repeat.
+  - apply nth_In. unfold r, interp_axis. rewrite map_length. exact Ha0.
+Qed.
